@@ -20,13 +20,14 @@ func flexH(x0, y0 int64, after ...Seg) []Seg {
 }
 
 // NumOutlines is the size of the outline family.
-const NumOutlines = 16
+const NumOutlines = 17
 
 // OutlineName names the members of the family.
 var OutlineName = [NumOutlines]string{
 	"empty", "triangle", "rect", "rect-back-to-start", "rrcurves", "hv-vh-curves", "circle",
 	"two-contours", "fractions", "dyadic-fractions", "flex-after-move", "flex-after-line",
 	"flex-after-curve", "vertical-flex-after-line", "number-boundaries", "mixed-hv",
+	"contour-starting-where-the-previous-one-ended",
 }
 
 // Outline returns member k of the outline family.
@@ -85,6 +86,13 @@ func Outline(k int) []Contour {
 		return []Contour{{P(0, 0), segs}}
 	case 15:
 		return []Contour{{P(0, 0), []Seg{L(100, 0), C(150, 0, 200, 50, 200, 100), L(200, 300), C(200, 350, 150, 400, 100, 400), L(0, 400)}}}
+	case 16:
+		// the moveto of the second and third contour goes to the current point (`0 hmoveto`)
+		return []Contour{
+			{P(50, 0), []Seg{L(250, 0), L(250, 300)}},
+			{P(250, 300), []Seg{L(400, 300), L(400, 500)}},
+			{P(400, 500), []Seg{C(420, 520, 440, 540, 460, 500), L(430, 480)}},
+		}
 	}
 	panic("no such outline")
 }
@@ -207,7 +215,7 @@ func (m *Font) custom() *Font { m.StdEnc = false; return m }
 var InterestingStrings = []string{
 	"", "x", "(balanced) (parens)", ")(", "((", "))", `back\slash`, `ends with backslash\`, `\(`, `octal\101`,
 	"line1\nline2", "cr\rlf", "crlf\r\nend", "tab\there", "\x00nul\x00", "\xff\x80\xfe high", "100% (c) 1999", " leading and trailing ",
-	"trailing newline\n", "\x7f\x1b\x0c",
+	"trailing newline\n", "\x7f\x1b\x0c", "three\nlines of\ntext\n\nand an empty one", "\n\n",
 }
 
 // ---------------------------------------------------------------------------
@@ -369,6 +377,12 @@ func dictionaryFonts() []*Font {
 		out = append(out, f)
 		f = base("E:private negative and large")
 		f.Private = Private{BlueValues: []int{-32768, 32767}, OtherBlues: []int{-1, 1}, BlueScale: fp(0.5), BlueShift: ip(-3), BlueFuzz: ip(100), StdHW: 1000, ForceBold: bp(true)}
+		out = append(out, f)
+		f = base("E:private more alignment zones than the format's seven and five pairs")
+		f.Private = Private{BlueValues: []int{-20, 0, 100, 110, 200, 210, 300, 310, 400, 410, 500, 510, 600, 615, 700, 712, 800, 820, 900, 901}, OtherBlues: []int{-600, -590, -500, -490, -400, -390, -300, -290, -200, -190, -100, -90}}
+		out = append(out, f)
+		f = base("E:private fifteen BlueValues and eleven OtherBlues")
+		f.Private = Private{BlueValues: []int{-20, 0, 100, 110, 200, 210, 300, 310, 400, 410, 500, 510, 600, 615, 700}, OtherBlues: []int{-600, -590, -500, -490, -400, -390, -300, -290, -200, -190, -100}}
 		out = append(out, f)
 		for _, fz := range []int{0, 1, 2} {
 			f = base(fmt.Sprintf("E:private only BlueFuzz %d", fz))
